@@ -432,7 +432,7 @@ func hostilePaths(r *rand.Rand, v any) []any {
 func init() {
 	run.Register(&run.Prop{
 		ID: "C02", Level: "exploration", MinNontrivial: 3000,
-		Rule:        "sub-checks, all on executions of the real library: alignment — the n-th output of path(p) navigated in the input by the harness' reference getpath equals the n-th output of p, and both lists end together; reduction — `p |= f`, `p = x`, `p op= x`, `p //= x`, `del(p)` against their defining reductions written with plain reduce/path/getpath/setpath/delpaths (first output of f, deletion when f is empty, deletions together at the end, paths generated against the original input); model — map_values, paths, paths(f), pick, to_entries, with_entries, tostream, del, path and the update operators against the reference interpreter evaluating builtin.jq's text over persistent reference primitives; primitive — getpath/setpath/delpaths and setpath|getpath on every path of a value plus hostile paths (negative, out of range, fractional, slices with null/negative/inverted bounds, wrong key types) against always-copying reference primitives; non-interference — after a successful `p |= f` every path of the input unrelated to the updated paths still holds its value; invalid-path — navigation from a constructed container, a foreign scalar or a computed null (14 sources x 14 constant and computed keys, indices and slices x 10 contexts, on locations that do not hold null) inside path(...) or on the left of an update must raise an invalid-path error. Programs: all ordered pairs and sampled triples of 36 path atoms (ancestor/descendant/equal/slice-overlap in every order) x 21 update bodies (copy, duplicate, embed, slice, replace, compute, drop, multiply, fail) x inputs with shared and nested structure; PRNG-generated path-safe expressions. Non-trivial = distinct cases that produced an output (alignment: a path).",
+		Rule:        "sub-checks, all on executions of the real library: alignment — the n-th output of path(p) navigated in the input by the harness' reference getpath equals the n-th output of p, and both lists end together; reduction — `p |= f`, `p = x`, `p op= x`, `p //= x`, `del(p)` against their defining reductions written with plain reduce/path/getpath/setpath/delpaths (first output of f, deletion when f is empty, deletions together at the end, paths generated against the original input); model — map_values, paths, paths(f), pick, to_entries, with_entries, tostream, del, path and the update operators against the reference interpreter evaluating builtin.jq's text over persistent reference primitives; primitive — getpath/setpath/delpaths and setpath|getpath on every path of a value plus hostile paths (negative, out of range, fractional, slices with null/negative/inverted bounds, wrong key types) against always-copying reference primitives; readwrite — 11 laws tying setpath, `=`, `|=`, `+=`, del and delpaths to what getpath finds through 31 hostile indices (fractional, negative and fractional, integral doubles) on arrays with distinct elements; non-interference — after a successful `p |= f` every path of the input unrelated to the updated paths still holds its value; invalid-path — navigation from a constructed container, a foreign scalar or a computed null (14 sources x 14 constant and computed keys, indices and slices x 10 contexts, on locations that do not hold null) inside path(...) or on the left of an update must raise an invalid-path error. Programs: all ordered pairs and sampled triples of 36 path atoms (ancestor/descendant/equal/slice-overlap in every order) x 21 update bodies (copy, duplicate, embed, slice, replace, compute, drop, multiply, fail) x inputs with shared and nested structure; PRNG-generated path-safe expressions. Non-trivial = distinct cases that produced an output (alignment: a path).",
 		Assumptions: []string{"the reference primitives (harness/internal/model/paths.go) are a faithful reading of the manual (null-tolerant getpath, padding setpath, mark-then-sweep delpaths)", "caught/terminal internal errors are compared by class", "expressions whose result may or may not be the same container (`. + []`) and cross-representation scalar coincidences are not used for the invalid-path check"},
 		Body: func(c *run.Ctx) {
 			r := c.Rand("c02")
@@ -710,6 +710,10 @@ func init() {
 				for _, in := range []any{map[string]any{"a": []any{}, "b": []any{}}, map[string]any{"a": []any{}, "b": []any{}, "c": 1}} {
 					kC02Invalid.Do(c, c02Invalid{Src: src, C: "", Input: run.TV{V: in}, EmptyAlias: true})
 				}
+			}
+			// reading and writing through hostile indices address the same element
+			for _, t := range c02RWCases() {
+				kC02RW.Do(c, t)
 			}
 			// a computed null is not the location either, unless the location holds null itself: constant keys, indices
 			// and slices (the directly compiled forms) and computed ones
